@@ -56,8 +56,8 @@ def _local_like(toks, name):
         prev2 = toks[i - 2].text if i > 1 else ""
         nxt = toks[i + 1].text if i + 1 < len(toks) else ""
         nxt2 = toks[i + 2].text if i + 2 < len(toks) else ""
-        if prev == "." and prev2 != ".":          # `a.name` (but `..name` is a range bound)
-            return False
+        if prev == "." and prev2 != ".":          # `a.name`: a field or method of that name, not this identifier (rename_idents
+            continue                              # never touches an identifier after `.`); `..name` is a range bound
         if prev == ":" and prev2 == ":":
             return False
         if nxt in ("(", "!"):
@@ -95,11 +95,63 @@ def alpha_map(old, new):
     return ren
 
 
+def alpha_map_tolerant(old, new):
+    """like alpha_map, for a source that was ALSO edited elsewhere (statements added, moved, reworded): the two token streams are
+    aligned (difflib); an identifier pair (x, y) found at corresponding positions of equally long replaced runs is a renaming
+    if x is local-like in `old` and no longer occurs in `new`, y is local-like in `new` and did not occur in `old`, and the pairing
+    is one-to-one.  Returns the (possibly empty) map; never None."""
+    import difflib
+    a = sig(lex(old))
+    b = sig(lex(new))
+    ta = [t.text for t in a]
+    tb = [t.text for t in b]
+    def free_idents(ts):
+        return set(t.text for i, t in enumerate(ts) if t.kind == "ident" and not (i > 0 and ts[i - 1].text == "." and not (i > 1 and ts[i - 2].text == ".")))
+    in_a = free_idents(a)
+    in_b = free_idents(b)
+    votes = {}
+    sm = difflib.SequenceMatcher(None, ta, tb, autojunk=False)
+    for tag, i1, i2, j1, j2 in sm.get_opcodes():
+        if tag != "replace" or (i2 - i1) != (j2 - j1):
+            continue
+        for k in range(i2 - i1):
+            x, y = a[i1 + k], b[j1 + k]
+            if x.kind == "ident" and y.kind == "ident" and x.text != y.text:
+                votes.setdefault(x.text, {}).setdefault(y.text, 0)
+                votes[x.text][y.text] += 1
+    ren = {}
+    used = {}
+    for x, ys in votes.items():
+        if len(ys) != 1:
+            continue
+        y = next(iter(ys))
+        if x in in_b or y in in_a:
+            continue
+        if not _local_like(a, x) or not _local_like(b, y):
+            continue
+        if y in used:
+            ren.pop(used[y], None)
+            continue
+        used[y] = x
+        ren[x] = y
+    return ren
+
+
 def rename_idents(text, ren):
     if not ren or text is None:
         return text
     toks = lex(text)
-    return "".join(ren.get(t.text, t.text) if t.kind == "ident" else t.text for t in toks)
+    out = []
+    prev_sig = None
+    for t in toks:
+        # an identifier right after `.` is a field or method name, never a local or parameter: left alone
+        if t.kind == "ident" and t.text in ren and not (prev_sig is not None and prev_sig.text == "."):
+            out.append(ren[t.text])
+        else:
+            out.append(t.text)
+        if t.kind not in ("ws", "comment", "space", "newline") and t.text.strip():
+            prev_sig = t
+    return "".join(out)
 
 
 class ItemSpec:
@@ -327,6 +379,8 @@ class Unit:
             btxt = base.get(self.item_key(spec))
             if btxt is not None and btxt != it.text:
                 ren = alpha_map(btxt, it.text)
+                if ren is None:
+                    ren = alpha_map_tolerant(btxt, it.text)
                 if ren:
                     spec = copy.deepcopy(spec)
                     spec.ret = spec.ret
@@ -362,7 +416,12 @@ class Unit:
             for a, b, rep, why in spec.spans:
                 text = rw.replace_span(text, a, b, rep, log)
             for a, b, why, must in spec.substs:
-                text = rw.subst(text, a, b, log, must=must)
+                # a substitution whose source text is gone (the statement was edited) is skipped and recorded: whatever it would
+                # have replaced is then submitted to the verifier as written, which either copes with it or reports that it cannot
+                before_ = text
+                text = rw.subst(text, a, b, log, must=False)
+                if must and text == before_ and not rw.find_seq(sig(lex(text)), [t.text for t in sig(lex(b))]):
+                    info.setdefault("substs_not_applied", []).append("%s: `%s`" % (self.item_key(spec), a))
             if spec.ret and spec.kind in ("fn",):
                 text = rw.r13_name_ret(text, spec.ret, log)
             sid_base = "%s/%s" % (self.name, (spec.container + "::" if spec.container else "") + spec.name)
@@ -579,8 +638,15 @@ class Unit:
                 if not hits and nth == 0:
                     # approximate anchor: a splice is only ever a proof hint or ghost code, every bit of which is itself
                     # checked by the verifier, so placing it next to a slightly edited statement cannot make a false
-                    # proof go through; it keeps the obligations decidable when the anchored statement itself was changed
-                    hits = fuzzy_find(st, pat, body_open, body_close)
+                    # proof go through; it keeps the obligations decidable when the anchored statement itself was changed.
+                    # First choice: the place the baseline source's statement aligns with; second: a unique near match.
+                    m_ = self._align_anchor(st, pat, spec)
+                    if m_ is not None and m_[0] > body_open and m_[1] < body_close:
+                        hits = [m_]
+                    else:
+                        hits = fuzzy_find(st, pat, body_open, body_close)
+                        if len(hits) > 1:
+                            hits = []
                     if len(hits) == 1:
                         info.setdefault("approx_anchors", []).append("%s: `%s`" % (sid_base, arg))
                 # an anchor without explicit #n must be unique
